@@ -99,6 +99,37 @@ func (v *vdrRun) monitors() {
 				fmt.Sprintf("%s (outside the pipestance directory %s) was removed or changed", p, psdir), nil)
 		}
 	}
+	// ---- the two bookkeeping maps of the real code are consistent (the
+	// hypothesis `BK` of reclaims_all_unreferenced): a node holds an argument
+	// iff it is a post node listing it; no argument without holders
+	for _, snap := range []*vdrSnapshot{v.preFinal, v.postKill} {
+		for i := range snap.Forks {
+			f := &snap.Forks[i]
+			for a, hs := range f.FileArgs {
+				if len(hs) == 0 {
+					v.violate("C14", "correspondence", "C14:bookkeeping-consistency",
+						fmt.Sprintf("fork %s keeps argument %s without any holder", f.Fqname, a), nil)
+				}
+				for _, h := range hs {
+					if h != "" && !containsStr(f.FilePostNodes[h], a) {
+						v.violate("C14", "correspondence", "C14:bookkeeping-consistency",
+							fmt.Sprintf("fork %s: node %s holds argument %s but filePostNodes does not list it", f.Fqname, h, a),
+							map[string]interface{}{"fileArgs": f.FileArgs, "postNodes": f.FilePostNodes})
+					}
+				}
+			}
+			for n, as := range f.FilePostNodes {
+				for _, a := range as {
+					if !containsStr(f.FileArgs[a], n) {
+						v.violate("C14", "correspondence", "C14:bookkeeping-consistency",
+							fmt.Sprintf("fork %s: post node %s lists argument %s but is not among its holders", f.Fqname, n, a),
+							map[string]interface{}{"fileArgs": f.FileArgs, "postNodes": f.FilePostNodes})
+					}
+				}
+			}
+			v.hist("bookkeeping-consistency-checked")
+		}
+	}
 	// ---- forks by directory
 	forkByDir := map[string]*core.VerifVdrFork{}
 	for i := range pk.Forks {
@@ -106,41 +137,7 @@ func (v *vdrRun) monitors() {
 		forkByDir[v.rel(f.Path)] = f
 	}
 	// ---- spec-level volatility and retains from the program
-	volatile := map[string]bool{} // node fq -> files may be reclaimed
-	exempt := map[string]bool{}
-	type ret struct{ node, out string }
-	var retains []ret
-	unresolvedRetain := false
-	v.walkCalls(func(fq string, call *syntax.CallStm, callable syntax.Callable, parent *syntax.Pipeline, prefix string) {
-		switch c := callable.(type) {
-		case *syntax.Stage:
-			sv := v.stageVol[c.Id]
-			isVol := sv == "strict" || (call.Modifiers != nil && call.Modifiers.Volatile)
-			if v.spec.VdrMode == "strict" && sv != "false" {
-				isVol = true
-			}
-			if v.spec.VdrMode == "strict" && sv == "false" && !isVol {
-				exempt[fq] = true
-			}
-			volatile[fq] = isVol
-			if c.Retain != nil {
-				for _, rp := range c.Retain.Params {
-					retains = append(retains, ret{fq, rp.Id})
-				}
-			}
-		case *syntax.Pipeline:
-			if c.Retain != nil {
-				for _, ref := range c.Retain.Refs {
-					target := v.r.Ast.Callables.Table[calleeOf(c, ref.Id)]
-					if _, ok := target.(*syntax.Stage); ok {
-						retains = append(retains, ret{fq + "." + ref.Id, ref.OutputId})
-					} else {
-						unresolvedRetain = true
-					}
-				}
-			}
-		}
-	})
+	volatile, exempt, retains, unresolvedRetain := v.specVolatility()
 	// ---- the named set: top-level outputs (before post-processing) and retained outputs
 	var named []string
 	topDir := v.r.Ast.Call.Id + "/fork0"
@@ -162,6 +159,20 @@ func (v *vdrRun) monitors() {
 			sub, _ := json.Marshal(specJSONPath(val, rt.out))
 			for _, p := range pathsInJSON(sub, psdir) {
 				named = append(named, v.rel(p))
+			}
+		}
+	}
+	// a named symbolic link names what it points to as well
+	for i := 0; i < len(named); i++ {
+		if e, ok := pk.Tree[named[i]]; ok && e.Kind == "l" && e.Dest != "" {
+			t := e.Dest
+			if !path.IsAbs(t) {
+				t = path.Join(psdir, path.Dir(named[i]), t)
+			}
+			t = path.Clean(t)
+			if strings.HasPrefix(t, psdir+"/") && len(named) < 10000 {
+				named = append(named, v.rel(t))
+				v.hist("named-through-symlink")
 			}
 		}
 	}
@@ -331,7 +342,7 @@ func (v *vdrRun) monitors() {
 			continue
 		}
 		// what was actually removed below this fork's files/ and tmp/ directories
-		var n, size uint64
+		var n, size, sizeWalked uint64
 		reset := false
 		var removed []string
 		for e, ent := range v.ever {
@@ -350,6 +361,7 @@ func (v *vdrRun) monitors() {
 			}
 			n++
 			size += uint64(ent.Size)
+			sizeWalked += uint64(sizeAsWalked(e, ent))
 			removed = append(removed, e)
 		}
 		if reset {
@@ -360,7 +372,12 @@ func (v *vdrRun) monitors() {
 		if n > 0 {
 			v.hist("report-judged-nonempty")
 		}
-		if rep.Count != n || rep.Size != size {
+		if rep.Count == n && rep.Size != size && rep.Size == sizeWalked {
+			// the only difference: a symbolic link directly below files/ or tmp/ is
+			// accounted with the size of its target (util.Walk follows its root)
+			v.violate("C14", "property", "C14:report-size-counts-link-target",
+				fmt.Sprintf("kill report %s says size=%d for %d removed entries of %d bytes: a removed symbolic link is accounted with the size of the file it points to", rel, rep.Size, n, size), nil)
+		} else if rep.Count != n || rep.Size != size {
 			sort.Strings(removed)
 			v.violate("C14", "property", "C14:report-totals",
 				fmt.Sprintf("kill report %s says count=%d size=%d but %d entries with %d bytes were actually removed below the fork's files/ and tmp/ directories",
@@ -418,6 +435,46 @@ func (v *vdrRun) monitors() {
 	v.res.Nontrivial = nVolWritten > 0 && len(v.gone) > 0
 }
 
+type vdrRetain struct{ node, out string }
+
+// specVolatility: from the program text and the VDR mode, which nodes are
+// volatile stages, which opted out in strict mode, and the retain declarations.
+func (v *vdrRun) specVolatility() (volatile, exempt map[string]bool, retains []vdrRetain, unresolvedRetain bool) {
+	volatile = map[string]bool{} // node fq -> files may be reclaimed
+	exempt = map[string]bool{}
+	v.walkCalls(func(fq string, call *syntax.CallStm, callable syntax.Callable, parent *syntax.Pipeline, prefix string) {
+		switch c := callable.(type) {
+		case *syntax.Stage:
+			sv := v.stageVol[c.Id]
+			isVol := sv == "strict" || (call.Modifiers != nil && call.Modifiers.Volatile)
+			if v.spec.VdrMode == "strict" && sv != "false" {
+				isVol = true
+			}
+			if v.spec.VdrMode == "strict" && sv == "false" && !isVol {
+				exempt[fq] = true
+			}
+			volatile[fq] = isVol
+			if c.Retain != nil {
+				for _, rp := range c.Retain.Params {
+					retains = append(retains, vdrRetain{fq, rp.Id})
+				}
+			}
+		case *syntax.Pipeline:
+			if c.Retain != nil {
+				for _, ref := range c.Retain.Refs {
+					target := v.r.Ast.Callables.Table[calleeOf(c, ref.Id)]
+					if _, ok := target.(*syntax.Stage); ok {
+						retains = append(retains, vdrRetain{fq + "." + ref.Id, ref.OutputId})
+					} else {
+						unresolvedRetain = true
+					}
+				}
+			}
+		}
+	})
+	return
+}
+
 // supersededByReset: the file was written by an attempt whose directory was
 // removed by a restart (not by VDR).
 func (v *vdrRun) supersededByReset(w string) (string, bool) {
@@ -444,4 +501,13 @@ func calleeOf(p *syntax.Pipeline, callId string) string {
 		}
 	}
 	return ""
+}
+
+func containsStr(xs []string, x string) bool {
+	for _, y := range xs {
+		if y == x {
+			return true
+		}
+	}
+	return false
 }
